@@ -1,6 +1,6 @@
 """ST rules: stop() is close + join; closed => Err; loop exits; callbacks live in the loop."""
 from mirq.anchors import POOL_JOIN, POOL_EXEC, THREAD_SPAWN
-from mirq.prov import subterms, term_str, strip_wrap, strip_clone
+from mirq.prov import subterms, term_str, strip_wrap, strip_clone, is_lock_result
 from mirq.report import short, AnchorMissing
 from rules.queue import close_body, dispatch_entries, dispatch_enqueue_events
 
@@ -12,7 +12,19 @@ def _is_slot(ctx, t, fld):
 def _slot_seen_empty(ctx, p, fld):
     """the path looked at the slot's content and found None (`if let Some(tx) = guard.as_ref()`
     not taken, `take()` returned None): the store was already closed"""
-    return any(k[0] == "discr" and str(v).lstrip("*") == "None" and _is_slot(ctx, k[1], fld) for (k, v) in p.decisions)
+    if any(k[0] == "discr" and str(v).lstrip("*") == "None" and _is_slot(ctx, k[1], fld) for (k, v) in p.decisions):
+        return True
+    # `let closed = slot.lock().unwrap().is_none(); if closed {..}`
+    for k, v in p.decisions:
+        for c in subterms(k):
+            if isinstance(c, tuple) and len(c) == 3 and c[0] == "call" and c[2] in ("std::option::Option::is_none", "std::option::Option::is_some"):
+                ev = [e for e in p.calls() if e.result == c]
+                if not ev or not ev[0].args or not _is_slot(ctx, ev[0].args[0], fld):
+                    continue
+                truthy = str(v).lstrip("*") not in ("0", "false")
+                if truthy == c[2].endswith("is_none"):
+                    return True
+    return False
 
 
 def st1_stop_is_close_plus_join(ctx, rep, entry="stop", body=None):
@@ -56,6 +68,13 @@ def st1_stop_is_close_plus_join(ctx, rep, entry="stop", body=None):
         ok1 = len(closes) >= 1 or _slot_seen_empty(ctx, p, A.f_tx)
         rep.check(ok1, R, "closes-first:" + fn, ctx.where(stop), "path [%s] closes the dispatch queue" % p.describe(), "path [%s] returns without closing the dispatch queue" % p.describe())
         ok2 = len(ptakes) == 1 and (not closes or p.events.index(closes[0]) < p.events.index(ptakes[0]))
+        # a second stop(): the path looked into both slots and found them empty - the store is
+        # closed and the pool already taken (by the stop() that is or was joining it): nothing
+        # left to close or join.  (Seeing only the sender slot empty is not enough: close() then
+        # stop() still has to join.)
+        if not ptakes and not joins and _slot_seen_empty(ctx, p, A.f_pool) and _slot_seen_empty(ctx, p, A.f_tx):
+            rep.ok(R, "takes-pool-after-close:" + fn, ctx.where(stop), "path [%s]: store closed and pool already gone, nothing to do" % p.describe())
+            continue
         rep.check(ok2, R, "takes-pool-after-close:" + fn, ctx.where(stop, ptakes[0].bb) if ptakes else ctx.where(stop),
                   "path [%s] empties the pool slot after closing" % p.describe(), "path [%s] does not empty the pool slot (%d takes) after closing: stop() returns without joining" % (p.describe(), len(ptakes)))
         if not ptakes:
@@ -117,7 +136,7 @@ def st2_closed_means_err(ctx, rep):
         for p in pe.paths:
             if p.end != "return":
                 continue
-            slot = [v for (k, v) in p.decisions if k[0] == "discr" and k[1][0] != "lockres" and _is_slot(ctx, k[1], A.f_tx)]
+            slot = [v for (k, v) in p.decisions if k[0] == "discr" and not is_lock_result(k[1]) and _is_slot(ctx, k[1], A.f_tx)]
             if not slot:
                 rep.bad(R, "slot-not-tested:" + short(e.path), ctx.where(e), "path [%s] does not test whether the store is closed" % p.describe())
                 continue
